@@ -358,6 +358,31 @@ def hasFor : View → Bool
   | .show _ a b => hasFor a || hasFor b
   | .forKeyed _ _ => true
 
+def sortNat (l : List Nat) : List Nat :=
+  l.foldl (fun acc x => (acc.filter (· < x)) ++ [x] ++ acc.filter (fun y => !(y < x))) []
+
+/-- `serialize` / `render` with the rows of every `<For>` sorted by key: equal iff the DOM differs from
+the fresh render at most in the ORDER of keyed rows -/
+def serializeSorted : RState → List Tok
+  | .text _ s => [.text (.lit s)]
+  | .unit _ => [.comment]
+  | .elem _ tag as kid => [.open tag (as.map AState.out)] ++ serializeSorted kid ++ [.close]
+  | .seq a b => serializeSorted a ++ serializeSorted b
+  | .dynText _ _ _ last => [.text (.int last)]
+  | .either _ _ _ _ _ inner => serializeSorted inner
+  | .show _ _ _ _ _ _ inner => serializeSorted inner
+  | .forK _ _ _ ks _ => (sortNat (forRows ks)).flatMap rowTree ++ [.comment]
+
+def renderSorted (ρ : Nat → Int) : View → List Tok
+  | .text s => [.text (.lit s)]
+  | .unit => [.comment]
+  | .elem tag attrs kid => [.open tag (attrs.map (renderAttr ρ))] ++ renderSorted ρ kid ++ [.close]
+  | .seq a b => renderSorted ρ a ++ renderSorted ρ b
+  | .dynText x => [.text (.int (Reactive.evalPure ρ x))]
+  | .either c a b => if Reactive.evalPure ρ c != 0 then renderSorted ρ a else renderSorted ρ b
+  | .show c a b => if Reactive.evalPure ρ c != 0 then renderSorted ρ a else renderSorted ρ b
+  | .forKeyed sel lists => (sortNat (listAt lists (Reactive.evalPure ρ sel))).flatMap rowTree ++ [.comment]
+
 /-! ## driver state -/
 
 structure DState where
@@ -397,8 +422,8 @@ def verdict (d : DState) : String × DState :=
       let fresh := render d.st.env v
       if serialize t != fresh then
         let cls :=
-          if (viewExprs v).any (exprShadowed d.defs) then "stale-effect"
-          else if hasFor v then "dom-order-move-elided"
+          if hasFor v && serializeSorted t == renderSorted d.st.env v then "dom-order-move-elided"
+          else if (viewExprs v).any (exprShadowed d.defs) then "stale-effect"
           else "not-fresh"
         (s!" ## fail {cls}", { d with snap := none, written := [], envs := [d.st.env] })
       else
